@@ -171,7 +171,10 @@ func (f *FibStrategyTree) FindStrategyEnc(name enc.Name) enc.Name {
 func (f *FibStrategyTree) InsertNextHopEnc(name enc.Name, nexthop uint64, cost uint64) {
 	f.fibStrategyRWMutex.Lock()
 	defer f.fibStrategyRWMutex.Unlock()
+	f.insertNextHopLocked(name, nexthop, cost)
+}
 
+func (f *FibStrategyTree) insertNextHopLocked(name enc.Name, nexthop uint64, cost uint64) {
 	name = name.Clone()
 	entry := f.fillTreeToPrefixEnc(name)
 	if entry.name == nil {
@@ -195,7 +198,20 @@ func (f *FibStrategyTree) InsertNextHopEnc(name enc.Name, nexthop uint64, cost u
 func (f *FibStrategyTree) ClearNextHopsEnc(name enc.Name) {
 	f.fibStrategyRWMutex.Lock()
 	defer f.fibStrategyRWMutex.Unlock()
+	f.clearNextHopsLocked(name)
+}
 
+// ReplaceNextHopsEnc replaces the nexthops of the specified prefix under one write lock.
+func (f *FibStrategyTree) ReplaceNextHopsEnc(name enc.Name, nexthops []FibNextHopEntry) {
+	f.fibStrategyRWMutex.Lock()
+	defer f.fibStrategyRWMutex.Unlock()
+	f.clearNextHopsLocked(name)
+	for _, nh := range nexthops {
+		f.insertNextHopLocked(name, nh.Nexthop, nh.Cost)
+	}
+}
+
+func (f *FibStrategyTree) clearNextHopsLocked(name enc.Name) {
 	if name == nil {
 		return // In some weird case, when RibEntry.updateNexthops() is called, the name becomes nil.
 	}
